@@ -143,6 +143,22 @@ def responses_complete(data: bytes) -> int:
     return sum(1 for m in ms if m['complete'])
 
 
+def finish(rig: StepRig, cn: Optional['Canary']) -> None:
+    """A canary that has not completed within its iteration budget gets real time before the verdict: its bytes may simply
+    still be in flight in the kernel (TCP loopback delivery is not synchronous); only a proxy that has nothing left to do for a
+    full second counts as 'never completes'."""
+    if cn is None or cn.done or rig.dead is not None:
+        return
+
+    def p() -> bool:
+        cn.act()
+        return bool(cn.done)
+    try:
+        rig.until(p, [], idle_timeout=1.0, max_stall=6.0, max_wall=20.0)
+    except LoopDied:
+        pass
+
+
 def baseline(kind: str, mode: str) -> Dict[str, bytes]:
     key = '%s/%s' % (kind, mode)
     if key not in _base:
@@ -312,6 +328,7 @@ def run_idle_neighbour(case: Dict[str, Any]) -> Dict[str, Any]:
             rig.step()
         rig.settle([canary1.client, canary2.client], quiet=4)
         for (cn, when) in ((canary1, 'concurrent'), (canary2, 'after')):
+            finish(rig, cn)
             t = cn.transcript()
             if not cn.done:
                 viol.append({'key': 'idle-neighbour|reaped|canary-%s-never-completes' % when, 'detail': {'adversary': adv, 'canary': kind, 'stage': cn.stage}})
@@ -406,6 +423,7 @@ def run_reverse_upstream_fails_while_pending(case: Dict[str, Any]) -> Dict[str, 
             rig.step()
         rig.settle([canary1.client, canary2.client], quiet=4)
         for (cn, when) in ((canary1, 'concurrent'), (canary2, 'after')):
+            finish(rig, cn)
             t = cn.transcript()
             if not cn.done:
                 viol.append({'key': 'reverse-upstream-fails-while-pending|%s|canary-%s-never-completes' % (how, when), 'detail': {'adversary': adv, 'canary': kind, 'stage': cn.stage}})
@@ -479,6 +497,7 @@ def run_always_ready_neighbour(case: Dict[str, Any]) -> Dict[str, Any]:
                 if adv['then'] == 'keeps-sending' and rng.random() < 0.3:
                     c.send(b'Y')
             rig.settle([cn.client], quiet=4)
+            finish(rig, cn)
             t = cn.transcript()
             if not cn.done:
                 viol.append({'key': 'always-ready-neighbour|%s|canary-%s-never-completes' % (adv['then'], when), 'detail': {'adversary': adv, 'canary': kind, 'stage': cn.stage}})
@@ -622,6 +641,8 @@ def run_case(case: Dict[str, Any]) -> Dict[str, Any]:
         for (cn, when) in ((canary1, 'concurrent'), (canary2, 'after'), (canary3, 'while-adversary-ends')):
             if cn is None:
                 continue
+            finish(rig, cn)
+            finish(rig, cn)
             t = cn.transcript()
             if not cn.done:
                 viol.append({'key': '%s|canary-%s-never-completes' % (feat, when),
